@@ -362,6 +362,12 @@ def run(rep, drv):
 			errs.append('returned %r, documented %r' % (r, want))
 		if not same(xin, x):
 			errs.append('the argument was changed in place: %r -> %r' % (xin, x))
+		# the Lean model of the normaliser (Model/Helpers.lean ensureListForTimePeriods; theorems ensure_time_*)
+		jx = None if xin is None else (fr(F(float(xin))) if kind == 'scalar' else [fr(F(float(v))) for v in list(xin)])
+		mo = drv.call('ensuretime', x=jx, T=T)
+		pyc = r if isinstance(r, dict) else [None if v is None else fr(F(float(v))) for v in r]
+		if pyc != mo:
+			errs.append('python %r, model %r' % (pyc, mo))
 		if kind == 'list-T' and r is x:
 			errs.append('a list of length T must give a new list, not the argument itself')
 		if kind == 'list-T1' and r is not x:
